@@ -44,6 +44,7 @@ Definition G_DISCONNECTED : Z := 1. Definition G_IPRECEIVED : Z := 2. Definition
 (* output kinds *)
 Definition O_WIFISTART : Z := 0. Definition O_CONNECT : Z := 1. Definition O_DISCONNECT : Z := 2. Definition O_FRESH : Z := 3.
 Definition O_WIRE : Z := 4. Definition O_JUNK : Z := 5. Definition O_RESTART : Z := 6. Definition O_STATE : Z := 7. Definition O_FUEL : Z := 8.
+Definition O_RX : Z := 9. Definition O_DISCD : Z := 10.
 
 Record st := mkst {
   now : Z;
@@ -86,50 +87,52 @@ Record st := mkst {
   stuck : bool;
   regpay : list Z;
   clrstop : bool;
-  clrconn : bool
+  clrconn : bool;
+  evi : Z
 }.
 
-Definition set_now (v : Z) (s : st) : st := mkst v (boot s) (cycles0 s) (lat s) (lati s) (fired s) (seqc s) (t_wifi s) (t_timer1 s) (t_iter s) (t_wd s) (t_recon s) (t_stop s) (t_value s) (t_gpio2 s) (wstatus s) (wlast s) (link s) (liveres s) (deadres s) (script s) (started s) (registered s) (srpc s) (espbuf s) (recvbuf s) (lastresp s) (lastsent s) (nextwd s) (actto s) (resolving s) (gstate s) (conn s) (wbuf s) (stalled s) (outs s) (halted s) (stuck s) (regpay s) (clrstop s) (clrconn s).
-Definition set_boot (v : Z) (s : st) : st := mkst (now s) v (cycles0 s) (lat s) (lati s) (fired s) (seqc s) (t_wifi s) (t_timer1 s) (t_iter s) (t_wd s) (t_recon s) (t_stop s) (t_value s) (t_gpio2 s) (wstatus s) (wlast s) (link s) (liveres s) (deadres s) (script s) (started s) (registered s) (srpc s) (espbuf s) (recvbuf s) (lastresp s) (lastsent s) (nextwd s) (actto s) (resolving s) (gstate s) (conn s) (wbuf s) (stalled s) (outs s) (halted s) (stuck s) (regpay s) (clrstop s) (clrconn s).
-Definition set_cycles0 (v : Z) (s : st) : st := mkst (now s) (boot s) v (lat s) (lati s) (fired s) (seqc s) (t_wifi s) (t_timer1 s) (t_iter s) (t_wd s) (t_recon s) (t_stop s) (t_value s) (t_gpio2 s) (wstatus s) (wlast s) (link s) (liveres s) (deadres s) (script s) (started s) (registered s) (srpc s) (espbuf s) (recvbuf s) (lastresp s) (lastsent s) (nextwd s) (actto s) (resolving s) (gstate s) (conn s) (wbuf s) (stalled s) (outs s) (halted s) (stuck s) (regpay s) (clrstop s) (clrconn s).
-Definition set_lat (v : list Z) (s : st) : st := mkst (now s) (boot s) (cycles0 s) v (lati s) (fired s) (seqc s) (t_wifi s) (t_timer1 s) (t_iter s) (t_wd s) (t_recon s) (t_stop s) (t_value s) (t_gpio2 s) (wstatus s) (wlast s) (link s) (liveres s) (deadres s) (script s) (started s) (registered s) (srpc s) (espbuf s) (recvbuf s) (lastresp s) (lastsent s) (nextwd s) (actto s) (resolving s) (gstate s) (conn s) (wbuf s) (stalled s) (outs s) (halted s) (stuck s) (regpay s) (clrstop s) (clrconn s).
-Definition set_lati (v : Z) (s : st) : st := mkst (now s) (boot s) (cycles0 s) (lat s) v (fired s) (seqc s) (t_wifi s) (t_timer1 s) (t_iter s) (t_wd s) (t_recon s) (t_stop s) (t_value s) (t_gpio2 s) (wstatus s) (wlast s) (link s) (liveres s) (deadres s) (script s) (started s) (registered s) (srpc s) (espbuf s) (recvbuf s) (lastresp s) (lastsent s) (nextwd s) (actto s) (resolving s) (gstate s) (conn s) (wbuf s) (stalled s) (outs s) (halted s) (stuck s) (regpay s) (clrstop s) (clrconn s).
-Definition set_fired (v : Z) (s : st) : st := mkst (now s) (boot s) (cycles0 s) (lat s) (lati s) v (seqc s) (t_wifi s) (t_timer1 s) (t_iter s) (t_wd s) (t_recon s) (t_stop s) (t_value s) (t_gpio2 s) (wstatus s) (wlast s) (link s) (liveres s) (deadres s) (script s) (started s) (registered s) (srpc s) (espbuf s) (recvbuf s) (lastresp s) (lastsent s) (nextwd s) (actto s) (resolving s) (gstate s) (conn s) (wbuf s) (stalled s) (outs s) (halted s) (stuck s) (regpay s) (clrstop s) (clrconn s).
-Definition set_seqc (v : Z) (s : st) : st := mkst (now s) (boot s) (cycles0 s) (lat s) (lati s) (fired s) v (t_wifi s) (t_timer1 s) (t_iter s) (t_wd s) (t_recon s) (t_stop s) (t_value s) (t_gpio2 s) (wstatus s) (wlast s) (link s) (liveres s) (deadres s) (script s) (started s) (registered s) (srpc s) (espbuf s) (recvbuf s) (lastresp s) (lastsent s) (nextwd s) (actto s) (resolving s) (gstate s) (conn s) (wbuf s) (stalled s) (outs s) (halted s) (stuck s) (regpay s) (clrstop s) (clrconn s).
-Definition set_t_wifi (v : timer) (s : st) : st := mkst (now s) (boot s) (cycles0 s) (lat s) (lati s) (fired s) (seqc s) v (t_timer1 s) (t_iter s) (t_wd s) (t_recon s) (t_stop s) (t_value s) (t_gpio2 s) (wstatus s) (wlast s) (link s) (liveres s) (deadres s) (script s) (started s) (registered s) (srpc s) (espbuf s) (recvbuf s) (lastresp s) (lastsent s) (nextwd s) (actto s) (resolving s) (gstate s) (conn s) (wbuf s) (stalled s) (outs s) (halted s) (stuck s) (regpay s) (clrstop s) (clrconn s).
-Definition set_t_timer1 (v : timer) (s : st) : st := mkst (now s) (boot s) (cycles0 s) (lat s) (lati s) (fired s) (seqc s) (t_wifi s) v (t_iter s) (t_wd s) (t_recon s) (t_stop s) (t_value s) (t_gpio2 s) (wstatus s) (wlast s) (link s) (liveres s) (deadres s) (script s) (started s) (registered s) (srpc s) (espbuf s) (recvbuf s) (lastresp s) (lastsent s) (nextwd s) (actto s) (resolving s) (gstate s) (conn s) (wbuf s) (stalled s) (outs s) (halted s) (stuck s) (regpay s) (clrstop s) (clrconn s).
-Definition set_t_iter (v : timer) (s : st) : st := mkst (now s) (boot s) (cycles0 s) (lat s) (lati s) (fired s) (seqc s) (t_wifi s) (t_timer1 s) v (t_wd s) (t_recon s) (t_stop s) (t_value s) (t_gpio2 s) (wstatus s) (wlast s) (link s) (liveres s) (deadres s) (script s) (started s) (registered s) (srpc s) (espbuf s) (recvbuf s) (lastresp s) (lastsent s) (nextwd s) (actto s) (resolving s) (gstate s) (conn s) (wbuf s) (stalled s) (outs s) (halted s) (stuck s) (regpay s) (clrstop s) (clrconn s).
-Definition set_t_wd (v : timer) (s : st) : st := mkst (now s) (boot s) (cycles0 s) (lat s) (lati s) (fired s) (seqc s) (t_wifi s) (t_timer1 s) (t_iter s) v (t_recon s) (t_stop s) (t_value s) (t_gpio2 s) (wstatus s) (wlast s) (link s) (liveres s) (deadres s) (script s) (started s) (registered s) (srpc s) (espbuf s) (recvbuf s) (lastresp s) (lastsent s) (nextwd s) (actto s) (resolving s) (gstate s) (conn s) (wbuf s) (stalled s) (outs s) (halted s) (stuck s) (regpay s) (clrstop s) (clrconn s).
-Definition set_t_recon (v : timer) (s : st) : st := mkst (now s) (boot s) (cycles0 s) (lat s) (lati s) (fired s) (seqc s) (t_wifi s) (t_timer1 s) (t_iter s) (t_wd s) v (t_stop s) (t_value s) (t_gpio2 s) (wstatus s) (wlast s) (link s) (liveres s) (deadres s) (script s) (started s) (registered s) (srpc s) (espbuf s) (recvbuf s) (lastresp s) (lastsent s) (nextwd s) (actto s) (resolving s) (gstate s) (conn s) (wbuf s) (stalled s) (outs s) (halted s) (stuck s) (regpay s) (clrstop s) (clrconn s).
-Definition set_t_stop (v : timer) (s : st) : st := mkst (now s) (boot s) (cycles0 s) (lat s) (lati s) (fired s) (seqc s) (t_wifi s) (t_timer1 s) (t_iter s) (t_wd s) (t_recon s) v (t_value s) (t_gpio2 s) (wstatus s) (wlast s) (link s) (liveres s) (deadres s) (script s) (started s) (registered s) (srpc s) (espbuf s) (recvbuf s) (lastresp s) (lastsent s) (nextwd s) (actto s) (resolving s) (gstate s) (conn s) (wbuf s) (stalled s) (outs s) (halted s) (stuck s) (regpay s) (clrstop s) (clrconn s).
-Definition set_t_value (v : timer) (s : st) : st := mkst (now s) (boot s) (cycles0 s) (lat s) (lati s) (fired s) (seqc s) (t_wifi s) (t_timer1 s) (t_iter s) (t_wd s) (t_recon s) (t_stop s) v (t_gpio2 s) (wstatus s) (wlast s) (link s) (liveres s) (deadres s) (script s) (started s) (registered s) (srpc s) (espbuf s) (recvbuf s) (lastresp s) (lastsent s) (nextwd s) (actto s) (resolving s) (gstate s) (conn s) (wbuf s) (stalled s) (outs s) (halted s) (stuck s) (regpay s) (clrstop s) (clrconn s).
-Definition set_t_gpio2 (v : timer) (s : st) : st := mkst (now s) (boot s) (cycles0 s) (lat s) (lati s) (fired s) (seqc s) (t_wifi s) (t_timer1 s) (t_iter s) (t_wd s) (t_recon s) (t_stop s) (t_value s) v (wstatus s) (wlast s) (link s) (liveres s) (deadres s) (script s) (started s) (registered s) (srpc s) (espbuf s) (recvbuf s) (lastresp s) (lastsent s) (nextwd s) (actto s) (resolving s) (gstate s) (conn s) (wbuf s) (stalled s) (outs s) (halted s) (stuck s) (regpay s) (clrstop s) (clrconn s).
-Definition set_wstatus (v : Z) (s : st) : st := mkst (now s) (boot s) (cycles0 s) (lat s) (lati s) (fired s) (seqc s) (t_wifi s) (t_timer1 s) (t_iter s) (t_wd s) (t_recon s) (t_stop s) (t_value s) (t_gpio2 s) v (wlast s) (link s) (liveres s) (deadres s) (script s) (started s) (registered s) (srpc s) (espbuf s) (recvbuf s) (lastresp s) (lastsent s) (nextwd s) (actto s) (resolving s) (gstate s) (conn s) (wbuf s) (stalled s) (outs s) (halted s) (stuck s) (regpay s) (clrstop s) (clrconn s).
-Definition set_wlast (v : Z) (s : st) : st := mkst (now s) (boot s) (cycles0 s) (lat s) (lati s) (fired s) (seqc s) (t_wifi s) (t_timer1 s) (t_iter s) (t_wd s) (t_recon s) (t_stop s) (t_value s) (t_gpio2 s) (wstatus s) v (link s) (liveres s) (deadres s) (script s) (started s) (registered s) (srpc s) (espbuf s) (recvbuf s) (lastresp s) (lastsent s) (nextwd s) (actto s) (resolving s) (gstate s) (conn s) (wbuf s) (stalled s) (outs s) (halted s) (stuck s) (regpay s) (clrstop s) (clrconn s).
-Definition set_link (v : Z) (s : st) : st := mkst (now s) (boot s) (cycles0 s) (lat s) (lati s) (fired s) (seqc s) (t_wifi s) (t_timer1 s) (t_iter s) (t_wd s) (t_recon s) (t_stop s) (t_value s) (t_gpio2 s) (wstatus s) (wlast s) v (liveres s) (deadres s) (script s) (started s) (registered s) (srpc s) (espbuf s) (recvbuf s) (lastresp s) (lastsent s) (nextwd s) (actto s) (resolving s) (gstate s) (conn s) (wbuf s) (stalled s) (outs s) (halted s) (stuck s) (regpay s) (clrstop s) (clrconn s).
-Definition set_liveres (v : Z) (s : st) : st := mkst (now s) (boot s) (cycles0 s) (lat s) (lati s) (fired s) (seqc s) (t_wifi s) (t_timer1 s) (t_iter s) (t_wd s) (t_recon s) (t_stop s) (t_value s) (t_gpio2 s) (wstatus s) (wlast s) (link s) v (deadres s) (script s) (started s) (registered s) (srpc s) (espbuf s) (recvbuf s) (lastresp s) (lastsent s) (nextwd s) (actto s) (resolving s) (gstate s) (conn s) (wbuf s) (stalled s) (outs s) (halted s) (stuck s) (regpay s) (clrstop s) (clrconn s).
-Definition set_deadres (v : Z) (s : st) : st := mkst (now s) (boot s) (cycles0 s) (lat s) (lati s) (fired s) (seqc s) (t_wifi s) (t_timer1 s) (t_iter s) (t_wd s) (t_recon s) (t_stop s) (t_value s) (t_gpio2 s) (wstatus s) (wlast s) (link s) (liveres s) v (script s) (started s) (registered s) (srpc s) (espbuf s) (recvbuf s) (lastresp s) (lastsent s) (nextwd s) (actto s) (resolving s) (gstate s) (conn s) (wbuf s) (stalled s) (outs s) (halted s) (stuck s) (regpay s) (clrstop s) (clrconn s).
-Definition set_script (v : list Z) (s : st) : st := mkst (now s) (boot s) (cycles0 s) (lat s) (lati s) (fired s) (seqc s) (t_wifi s) (t_timer1 s) (t_iter s) (t_wd s) (t_recon s) (t_stop s) (t_value s) (t_gpio2 s) (wstatus s) (wlast s) (link s) (liveres s) (deadres s) v (started s) (registered s) (srpc s) (espbuf s) (recvbuf s) (lastresp s) (lastsent s) (nextwd s) (actto s) (resolving s) (gstate s) (conn s) (wbuf s) (stalled s) (outs s) (halted s) (stuck s) (regpay s) (clrstop s) (clrconn s).
-Definition set_started (v : bool) (s : st) : st := mkst (now s) (boot s) (cycles0 s) (lat s) (lati s) (fired s) (seqc s) (t_wifi s) (t_timer1 s) (t_iter s) (t_wd s) (t_recon s) (t_stop s) (t_value s) (t_gpio2 s) (wstatus s) (wlast s) (link s) (liveres s) (deadres s) (script s) v (registered s) (srpc s) (espbuf s) (recvbuf s) (lastresp s) (lastsent s) (nextwd s) (actto s) (resolving s) (gstate s) (conn s) (wbuf s) (stalled s) (outs s) (halted s) (stuck s) (regpay s) (clrstop s) (clrconn s).
-Definition set_registered (v : Z) (s : st) : st := mkst (now s) (boot s) (cycles0 s) (lat s) (lati s) (fired s) (seqc s) (t_wifi s) (t_timer1 s) (t_iter s) (t_wd s) (t_recon s) (t_stop s) (t_value s) (t_gpio2 s) (wstatus s) (wlast s) (link s) (liveres s) (deadres s) (script s) (started s) v (srpc s) (espbuf s) (recvbuf s) (lastresp s) (lastsent s) (nextwd s) (actto s) (resolving s) (gstate s) (conn s) (wbuf s) (stalled s) (outs s) (halted s) (stuck s) (regpay s) (clrstop s) (clrconn s).
-Definition set_srpc (v : option rpc) (s : st) : st := mkst (now s) (boot s) (cycles0 s) (lat s) (lati s) (fired s) (seqc s) (t_wifi s) (t_timer1 s) (t_iter s) (t_wd s) (t_recon s) (t_stop s) (t_value s) (t_gpio2 s) (wstatus s) (wlast s) (link s) (liveres s) (deadres s) (script s) (started s) (registered s) v (espbuf s) (recvbuf s) (lastresp s) (lastsent s) (nextwd s) (actto s) (resolving s) (gstate s) (conn s) (wbuf s) (stalled s) (outs s) (halted s) (stuck s) (regpay s) (clrstop s) (clrconn s).
-Definition set_espbuf (v : list Z) (s : st) : st := mkst (now s) (boot s) (cycles0 s) (lat s) (lati s) (fired s) (seqc s) (t_wifi s) (t_timer1 s) (t_iter s) (t_wd s) (t_recon s) (t_stop s) (t_value s) (t_gpio2 s) (wstatus s) (wlast s) (link s) (liveres s) (deadres s) (script s) (started s) (registered s) (srpc s) v (recvbuf s) (lastresp s) (lastsent s) (nextwd s) (actto s) (resolving s) (gstate s) (conn s) (wbuf s) (stalled s) (outs s) (halted s) (stuck s) (regpay s) (clrstop s) (clrconn s).
-Definition set_recvbuf (v : list Z) (s : st) : st := mkst (now s) (boot s) (cycles0 s) (lat s) (lati s) (fired s) (seqc s) (t_wifi s) (t_timer1 s) (t_iter s) (t_wd s) (t_recon s) (t_stop s) (t_value s) (t_gpio2 s) (wstatus s) (wlast s) (link s) (liveres s) (deadres s) (script s) (started s) (registered s) (srpc s) (espbuf s) v (lastresp s) (lastsent s) (nextwd s) (actto s) (resolving s) (gstate s) (conn s) (wbuf s) (stalled s) (outs s) (halted s) (stuck s) (regpay s) (clrstop s) (clrconn s).
-Definition set_lastresp (v : Z) (s : st) : st := mkst (now s) (boot s) (cycles0 s) (lat s) (lati s) (fired s) (seqc s) (t_wifi s) (t_timer1 s) (t_iter s) (t_wd s) (t_recon s) (t_stop s) (t_value s) (t_gpio2 s) (wstatus s) (wlast s) (link s) (liveres s) (deadres s) (script s) (started s) (registered s) (srpc s) (espbuf s) (recvbuf s) v (lastsent s) (nextwd s) (actto s) (resolving s) (gstate s) (conn s) (wbuf s) (stalled s) (outs s) (halted s) (stuck s) (regpay s) (clrstop s) (clrconn s).
-Definition set_lastsent (v : Z) (s : st) : st := mkst (now s) (boot s) (cycles0 s) (lat s) (lati s) (fired s) (seqc s) (t_wifi s) (t_timer1 s) (t_iter s) (t_wd s) (t_recon s) (t_stop s) (t_value s) (t_gpio2 s) (wstatus s) (wlast s) (link s) (liveres s) (deadres s) (script s) (started s) (registered s) (srpc s) (espbuf s) (recvbuf s) (lastresp s) v (nextwd s) (actto s) (resolving s) (gstate s) (conn s) (wbuf s) (stalled s) (outs s) (halted s) (stuck s) (regpay s) (clrstop s) (clrconn s).
-Definition set_nextwd (v : Z) (s : st) : st := mkst (now s) (boot s) (cycles0 s) (lat s) (lati s) (fired s) (seqc s) (t_wifi s) (t_timer1 s) (t_iter s) (t_wd s) (t_recon s) (t_stop s) (t_value s) (t_gpio2 s) (wstatus s) (wlast s) (link s) (liveres s) (deadres s) (script s) (started s) (registered s) (srpc s) (espbuf s) (recvbuf s) (lastresp s) (lastsent s) v (actto s) (resolving s) (gstate s) (conn s) (wbuf s) (stalled s) (outs s) (halted s) (stuck s) (regpay s) (clrstop s) (clrconn s).
-Definition set_actto (v : Z) (s : st) : st := mkst (now s) (boot s) (cycles0 s) (lat s) (lati s) (fired s) (seqc s) (t_wifi s) (t_timer1 s) (t_iter s) (t_wd s) (t_recon s) (t_stop s) (t_value s) (t_gpio2 s) (wstatus s) (wlast s) (link s) (liveres s) (deadres s) (script s) (started s) (registered s) (srpc s) (espbuf s) (recvbuf s) (lastresp s) (lastsent s) (nextwd s) v (resolving s) (gstate s) (conn s) (wbuf s) (stalled s) (outs s) (halted s) (stuck s) (regpay s) (clrstop s) (clrconn s).
-Definition set_resolving (v : bool) (s : st) : st := mkst (now s) (boot s) (cycles0 s) (lat s) (lati s) (fired s) (seqc s) (t_wifi s) (t_timer1 s) (t_iter s) (t_wd s) (t_recon s) (t_stop s) (t_value s) (t_gpio2 s) (wstatus s) (wlast s) (link s) (liveres s) (deadres s) (script s) (started s) (registered s) (srpc s) (espbuf s) (recvbuf s) (lastresp s) (lastsent s) (nextwd s) (actto s) v (gstate s) (conn s) (wbuf s) (stalled s) (outs s) (halted s) (stuck s) (regpay s) (clrstop s) (clrconn s).
-Definition set_gstate (v : Z) (s : st) : st := mkst (now s) (boot s) (cycles0 s) (lat s) (lati s) (fired s) (seqc s) (t_wifi s) (t_timer1 s) (t_iter s) (t_wd s) (t_recon s) (t_stop s) (t_value s) (t_gpio2 s) (wstatus s) (wlast s) (link s) (liveres s) (deadres s) (script s) (started s) (registered s) (srpc s) (espbuf s) (recvbuf s) (lastresp s) (lastsent s) (nextwd s) (actto s) (resolving s) v (conn s) (wbuf s) (stalled s) (outs s) (halted s) (stuck s) (regpay s) (clrstop s) (clrconn s).
-Definition set_conn (v : Z) (s : st) : st := mkst (now s) (boot s) (cycles0 s) (lat s) (lati s) (fired s) (seqc s) (t_wifi s) (t_timer1 s) (t_iter s) (t_wd s) (t_recon s) (t_stop s) (t_value s) (t_gpio2 s) (wstatus s) (wlast s) (link s) (liveres s) (deadres s) (script s) (started s) (registered s) (srpc s) (espbuf s) (recvbuf s) (lastresp s) (lastsent s) (nextwd s) (actto s) (resolving s) (gstate s) v (wbuf s) (stalled s) (outs s) (halted s) (stuck s) (regpay s) (clrstop s) (clrconn s).
-Definition set_wbuf (v : list Z) (s : st) : st := mkst (now s) (boot s) (cycles0 s) (lat s) (lati s) (fired s) (seqc s) (t_wifi s) (t_timer1 s) (t_iter s) (t_wd s) (t_recon s) (t_stop s) (t_value s) (t_gpio2 s) (wstatus s) (wlast s) (link s) (liveres s) (deadres s) (script s) (started s) (registered s) (srpc s) (espbuf s) (recvbuf s) (lastresp s) (lastsent s) (nextwd s) (actto s) (resolving s) (gstate s) (conn s) v (stalled s) (outs s) (halted s) (stuck s) (regpay s) (clrstop s) (clrconn s).
-Definition set_stalled (v : bool) (s : st) : st := mkst (now s) (boot s) (cycles0 s) (lat s) (lati s) (fired s) (seqc s) (t_wifi s) (t_timer1 s) (t_iter s) (t_wd s) (t_recon s) (t_stop s) (t_value s) (t_gpio2 s) (wstatus s) (wlast s) (link s) (liveres s) (deadres s) (script s) (started s) (registered s) (srpc s) (espbuf s) (recvbuf s) (lastresp s) (lastsent s) (nextwd s) (actto s) (resolving s) (gstate s) (conn s) (wbuf s) v (outs s) (halted s) (stuck s) (regpay s) (clrstop s) (clrconn s).
-Definition set_outs (v : list wire) (s : st) : st := mkst (now s) (boot s) (cycles0 s) (lat s) (lati s) (fired s) (seqc s) (t_wifi s) (t_timer1 s) (t_iter s) (t_wd s) (t_recon s) (t_stop s) (t_value s) (t_gpio2 s) (wstatus s) (wlast s) (link s) (liveres s) (deadres s) (script s) (started s) (registered s) (srpc s) (espbuf s) (recvbuf s) (lastresp s) (lastsent s) (nextwd s) (actto s) (resolving s) (gstate s) (conn s) (wbuf s) (stalled s) v (halted s) (stuck s) (regpay s) (clrstop s) (clrconn s).
-Definition set_halted (v : bool) (s : st) : st := mkst (now s) (boot s) (cycles0 s) (lat s) (lati s) (fired s) (seqc s) (t_wifi s) (t_timer1 s) (t_iter s) (t_wd s) (t_recon s) (t_stop s) (t_value s) (t_gpio2 s) (wstatus s) (wlast s) (link s) (liveres s) (deadres s) (script s) (started s) (registered s) (srpc s) (espbuf s) (recvbuf s) (lastresp s) (lastsent s) (nextwd s) (actto s) (resolving s) (gstate s) (conn s) (wbuf s) (stalled s) (outs s) v (stuck s) (regpay s) (clrstop s) (clrconn s).
-Definition set_stuck (v : bool) (s : st) : st := mkst (now s) (boot s) (cycles0 s) (lat s) (lati s) (fired s) (seqc s) (t_wifi s) (t_timer1 s) (t_iter s) (t_wd s) (t_recon s) (t_stop s) (t_value s) (t_gpio2 s) (wstatus s) (wlast s) (link s) (liveres s) (deadres s) (script s) (started s) (registered s) (srpc s) (espbuf s) (recvbuf s) (lastresp s) (lastsent s) (nextwd s) (actto s) (resolving s) (gstate s) (conn s) (wbuf s) (stalled s) (outs s) (halted s) v (regpay s) (clrstop s) (clrconn s).
-Definition set_regpay (v : list Z) (s : st) : st := mkst (now s) (boot s) (cycles0 s) (lat s) (lati s) (fired s) (seqc s) (t_wifi s) (t_timer1 s) (t_iter s) (t_wd s) (t_recon s) (t_stop s) (t_value s) (t_gpio2 s) (wstatus s) (wlast s) (link s) (liveres s) (deadres s) (script s) (started s) (registered s) (srpc s) (espbuf s) (recvbuf s) (lastresp s) (lastsent s) (nextwd s) (actto s) (resolving s) (gstate s) (conn s) (wbuf s) (stalled s) (outs s) (halted s) (stuck s) v (clrstop s) (clrconn s).
-Definition set_clrstop (v : bool) (s : st) : st := mkst (now s) (boot s) (cycles0 s) (lat s) (lati s) (fired s) (seqc s) (t_wifi s) (t_timer1 s) (t_iter s) (t_wd s) (t_recon s) (t_stop s) (t_value s) (t_gpio2 s) (wstatus s) (wlast s) (link s) (liveres s) (deadres s) (script s) (started s) (registered s) (srpc s) (espbuf s) (recvbuf s) (lastresp s) (lastsent s) (nextwd s) (actto s) (resolving s) (gstate s) (conn s) (wbuf s) (stalled s) (outs s) (halted s) (stuck s) (regpay s) v (clrconn s).
-Definition set_clrconn (v : bool) (s : st) : st := mkst (now s) (boot s) (cycles0 s) (lat s) (lati s) (fired s) (seqc s) (t_wifi s) (t_timer1 s) (t_iter s) (t_wd s) (t_recon s) (t_stop s) (t_value s) (t_gpio2 s) (wstatus s) (wlast s) (link s) (liveres s) (deadres s) (script s) (started s) (registered s) (srpc s) (espbuf s) (recvbuf s) (lastresp s) (lastsent s) (nextwd s) (actto s) (resolving s) (gstate s) (conn s) (wbuf s) (stalled s) (outs s) (halted s) (stuck s) (regpay s) (clrstop s) v.
+Definition set_now (v : Z) (s : st) : st := mkst v (boot s) (cycles0 s) (lat s) (lati s) (fired s) (seqc s) (t_wifi s) (t_timer1 s) (t_iter s) (t_wd s) (t_recon s) (t_stop s) (t_value s) (t_gpio2 s) (wstatus s) (wlast s) (link s) (liveres s) (deadres s) (script s) (started s) (registered s) (srpc s) (espbuf s) (recvbuf s) (lastresp s) (lastsent s) (nextwd s) (actto s) (resolving s) (gstate s) (conn s) (wbuf s) (stalled s) (outs s) (halted s) (stuck s) (regpay s) (clrstop s) (clrconn s) (evi s).
+Definition set_boot (v : Z) (s : st) : st := mkst (now s) v (cycles0 s) (lat s) (lati s) (fired s) (seqc s) (t_wifi s) (t_timer1 s) (t_iter s) (t_wd s) (t_recon s) (t_stop s) (t_value s) (t_gpio2 s) (wstatus s) (wlast s) (link s) (liveres s) (deadres s) (script s) (started s) (registered s) (srpc s) (espbuf s) (recvbuf s) (lastresp s) (lastsent s) (nextwd s) (actto s) (resolving s) (gstate s) (conn s) (wbuf s) (stalled s) (outs s) (halted s) (stuck s) (regpay s) (clrstop s) (clrconn s) (evi s).
+Definition set_cycles0 (v : Z) (s : st) : st := mkst (now s) (boot s) v (lat s) (lati s) (fired s) (seqc s) (t_wifi s) (t_timer1 s) (t_iter s) (t_wd s) (t_recon s) (t_stop s) (t_value s) (t_gpio2 s) (wstatus s) (wlast s) (link s) (liveres s) (deadres s) (script s) (started s) (registered s) (srpc s) (espbuf s) (recvbuf s) (lastresp s) (lastsent s) (nextwd s) (actto s) (resolving s) (gstate s) (conn s) (wbuf s) (stalled s) (outs s) (halted s) (stuck s) (regpay s) (clrstop s) (clrconn s) (evi s).
+Definition set_lat (v : list Z) (s : st) : st := mkst (now s) (boot s) (cycles0 s) v (lati s) (fired s) (seqc s) (t_wifi s) (t_timer1 s) (t_iter s) (t_wd s) (t_recon s) (t_stop s) (t_value s) (t_gpio2 s) (wstatus s) (wlast s) (link s) (liveres s) (deadres s) (script s) (started s) (registered s) (srpc s) (espbuf s) (recvbuf s) (lastresp s) (lastsent s) (nextwd s) (actto s) (resolving s) (gstate s) (conn s) (wbuf s) (stalled s) (outs s) (halted s) (stuck s) (regpay s) (clrstop s) (clrconn s) (evi s).
+Definition set_lati (v : Z) (s : st) : st := mkst (now s) (boot s) (cycles0 s) (lat s) v (fired s) (seqc s) (t_wifi s) (t_timer1 s) (t_iter s) (t_wd s) (t_recon s) (t_stop s) (t_value s) (t_gpio2 s) (wstatus s) (wlast s) (link s) (liveres s) (deadres s) (script s) (started s) (registered s) (srpc s) (espbuf s) (recvbuf s) (lastresp s) (lastsent s) (nextwd s) (actto s) (resolving s) (gstate s) (conn s) (wbuf s) (stalled s) (outs s) (halted s) (stuck s) (regpay s) (clrstop s) (clrconn s) (evi s).
+Definition set_fired (v : Z) (s : st) : st := mkst (now s) (boot s) (cycles0 s) (lat s) (lati s) v (seqc s) (t_wifi s) (t_timer1 s) (t_iter s) (t_wd s) (t_recon s) (t_stop s) (t_value s) (t_gpio2 s) (wstatus s) (wlast s) (link s) (liveres s) (deadres s) (script s) (started s) (registered s) (srpc s) (espbuf s) (recvbuf s) (lastresp s) (lastsent s) (nextwd s) (actto s) (resolving s) (gstate s) (conn s) (wbuf s) (stalled s) (outs s) (halted s) (stuck s) (regpay s) (clrstop s) (clrconn s) (evi s).
+Definition set_seqc (v : Z) (s : st) : st := mkst (now s) (boot s) (cycles0 s) (lat s) (lati s) (fired s) v (t_wifi s) (t_timer1 s) (t_iter s) (t_wd s) (t_recon s) (t_stop s) (t_value s) (t_gpio2 s) (wstatus s) (wlast s) (link s) (liveres s) (deadres s) (script s) (started s) (registered s) (srpc s) (espbuf s) (recvbuf s) (lastresp s) (lastsent s) (nextwd s) (actto s) (resolving s) (gstate s) (conn s) (wbuf s) (stalled s) (outs s) (halted s) (stuck s) (regpay s) (clrstop s) (clrconn s) (evi s).
+Definition set_t_wifi (v : timer) (s : st) : st := mkst (now s) (boot s) (cycles0 s) (lat s) (lati s) (fired s) (seqc s) v (t_timer1 s) (t_iter s) (t_wd s) (t_recon s) (t_stop s) (t_value s) (t_gpio2 s) (wstatus s) (wlast s) (link s) (liveres s) (deadres s) (script s) (started s) (registered s) (srpc s) (espbuf s) (recvbuf s) (lastresp s) (lastsent s) (nextwd s) (actto s) (resolving s) (gstate s) (conn s) (wbuf s) (stalled s) (outs s) (halted s) (stuck s) (regpay s) (clrstop s) (clrconn s) (evi s).
+Definition set_t_timer1 (v : timer) (s : st) : st := mkst (now s) (boot s) (cycles0 s) (lat s) (lati s) (fired s) (seqc s) (t_wifi s) v (t_iter s) (t_wd s) (t_recon s) (t_stop s) (t_value s) (t_gpio2 s) (wstatus s) (wlast s) (link s) (liveres s) (deadres s) (script s) (started s) (registered s) (srpc s) (espbuf s) (recvbuf s) (lastresp s) (lastsent s) (nextwd s) (actto s) (resolving s) (gstate s) (conn s) (wbuf s) (stalled s) (outs s) (halted s) (stuck s) (regpay s) (clrstop s) (clrconn s) (evi s).
+Definition set_t_iter (v : timer) (s : st) : st := mkst (now s) (boot s) (cycles0 s) (lat s) (lati s) (fired s) (seqc s) (t_wifi s) (t_timer1 s) v (t_wd s) (t_recon s) (t_stop s) (t_value s) (t_gpio2 s) (wstatus s) (wlast s) (link s) (liveres s) (deadres s) (script s) (started s) (registered s) (srpc s) (espbuf s) (recvbuf s) (lastresp s) (lastsent s) (nextwd s) (actto s) (resolving s) (gstate s) (conn s) (wbuf s) (stalled s) (outs s) (halted s) (stuck s) (regpay s) (clrstop s) (clrconn s) (evi s).
+Definition set_t_wd (v : timer) (s : st) : st := mkst (now s) (boot s) (cycles0 s) (lat s) (lati s) (fired s) (seqc s) (t_wifi s) (t_timer1 s) (t_iter s) v (t_recon s) (t_stop s) (t_value s) (t_gpio2 s) (wstatus s) (wlast s) (link s) (liveres s) (deadres s) (script s) (started s) (registered s) (srpc s) (espbuf s) (recvbuf s) (lastresp s) (lastsent s) (nextwd s) (actto s) (resolving s) (gstate s) (conn s) (wbuf s) (stalled s) (outs s) (halted s) (stuck s) (regpay s) (clrstop s) (clrconn s) (evi s).
+Definition set_t_recon (v : timer) (s : st) : st := mkst (now s) (boot s) (cycles0 s) (lat s) (lati s) (fired s) (seqc s) (t_wifi s) (t_timer1 s) (t_iter s) (t_wd s) v (t_stop s) (t_value s) (t_gpio2 s) (wstatus s) (wlast s) (link s) (liveres s) (deadres s) (script s) (started s) (registered s) (srpc s) (espbuf s) (recvbuf s) (lastresp s) (lastsent s) (nextwd s) (actto s) (resolving s) (gstate s) (conn s) (wbuf s) (stalled s) (outs s) (halted s) (stuck s) (regpay s) (clrstop s) (clrconn s) (evi s).
+Definition set_t_stop (v : timer) (s : st) : st := mkst (now s) (boot s) (cycles0 s) (lat s) (lati s) (fired s) (seqc s) (t_wifi s) (t_timer1 s) (t_iter s) (t_wd s) (t_recon s) v (t_value s) (t_gpio2 s) (wstatus s) (wlast s) (link s) (liveres s) (deadres s) (script s) (started s) (registered s) (srpc s) (espbuf s) (recvbuf s) (lastresp s) (lastsent s) (nextwd s) (actto s) (resolving s) (gstate s) (conn s) (wbuf s) (stalled s) (outs s) (halted s) (stuck s) (regpay s) (clrstop s) (clrconn s) (evi s).
+Definition set_t_value (v : timer) (s : st) : st := mkst (now s) (boot s) (cycles0 s) (lat s) (lati s) (fired s) (seqc s) (t_wifi s) (t_timer1 s) (t_iter s) (t_wd s) (t_recon s) (t_stop s) v (t_gpio2 s) (wstatus s) (wlast s) (link s) (liveres s) (deadres s) (script s) (started s) (registered s) (srpc s) (espbuf s) (recvbuf s) (lastresp s) (lastsent s) (nextwd s) (actto s) (resolving s) (gstate s) (conn s) (wbuf s) (stalled s) (outs s) (halted s) (stuck s) (regpay s) (clrstop s) (clrconn s) (evi s).
+Definition set_t_gpio2 (v : timer) (s : st) : st := mkst (now s) (boot s) (cycles0 s) (lat s) (lati s) (fired s) (seqc s) (t_wifi s) (t_timer1 s) (t_iter s) (t_wd s) (t_recon s) (t_stop s) (t_value s) v (wstatus s) (wlast s) (link s) (liveres s) (deadres s) (script s) (started s) (registered s) (srpc s) (espbuf s) (recvbuf s) (lastresp s) (lastsent s) (nextwd s) (actto s) (resolving s) (gstate s) (conn s) (wbuf s) (stalled s) (outs s) (halted s) (stuck s) (regpay s) (clrstop s) (clrconn s) (evi s).
+Definition set_wstatus (v : Z) (s : st) : st := mkst (now s) (boot s) (cycles0 s) (lat s) (lati s) (fired s) (seqc s) (t_wifi s) (t_timer1 s) (t_iter s) (t_wd s) (t_recon s) (t_stop s) (t_value s) (t_gpio2 s) v (wlast s) (link s) (liveres s) (deadres s) (script s) (started s) (registered s) (srpc s) (espbuf s) (recvbuf s) (lastresp s) (lastsent s) (nextwd s) (actto s) (resolving s) (gstate s) (conn s) (wbuf s) (stalled s) (outs s) (halted s) (stuck s) (regpay s) (clrstop s) (clrconn s) (evi s).
+Definition set_wlast (v : Z) (s : st) : st := mkst (now s) (boot s) (cycles0 s) (lat s) (lati s) (fired s) (seqc s) (t_wifi s) (t_timer1 s) (t_iter s) (t_wd s) (t_recon s) (t_stop s) (t_value s) (t_gpio2 s) (wstatus s) v (link s) (liveres s) (deadres s) (script s) (started s) (registered s) (srpc s) (espbuf s) (recvbuf s) (lastresp s) (lastsent s) (nextwd s) (actto s) (resolving s) (gstate s) (conn s) (wbuf s) (stalled s) (outs s) (halted s) (stuck s) (regpay s) (clrstop s) (clrconn s) (evi s).
+Definition set_link (v : Z) (s : st) : st := mkst (now s) (boot s) (cycles0 s) (lat s) (lati s) (fired s) (seqc s) (t_wifi s) (t_timer1 s) (t_iter s) (t_wd s) (t_recon s) (t_stop s) (t_value s) (t_gpio2 s) (wstatus s) (wlast s) v (liveres s) (deadres s) (script s) (started s) (registered s) (srpc s) (espbuf s) (recvbuf s) (lastresp s) (lastsent s) (nextwd s) (actto s) (resolving s) (gstate s) (conn s) (wbuf s) (stalled s) (outs s) (halted s) (stuck s) (regpay s) (clrstop s) (clrconn s) (evi s).
+Definition set_liveres (v : Z) (s : st) : st := mkst (now s) (boot s) (cycles0 s) (lat s) (lati s) (fired s) (seqc s) (t_wifi s) (t_timer1 s) (t_iter s) (t_wd s) (t_recon s) (t_stop s) (t_value s) (t_gpio2 s) (wstatus s) (wlast s) (link s) v (deadres s) (script s) (started s) (registered s) (srpc s) (espbuf s) (recvbuf s) (lastresp s) (lastsent s) (nextwd s) (actto s) (resolving s) (gstate s) (conn s) (wbuf s) (stalled s) (outs s) (halted s) (stuck s) (regpay s) (clrstop s) (clrconn s) (evi s).
+Definition set_deadres (v : Z) (s : st) : st := mkst (now s) (boot s) (cycles0 s) (lat s) (lati s) (fired s) (seqc s) (t_wifi s) (t_timer1 s) (t_iter s) (t_wd s) (t_recon s) (t_stop s) (t_value s) (t_gpio2 s) (wstatus s) (wlast s) (link s) (liveres s) v (script s) (started s) (registered s) (srpc s) (espbuf s) (recvbuf s) (lastresp s) (lastsent s) (nextwd s) (actto s) (resolving s) (gstate s) (conn s) (wbuf s) (stalled s) (outs s) (halted s) (stuck s) (regpay s) (clrstop s) (clrconn s) (evi s).
+Definition set_script (v : list Z) (s : st) : st := mkst (now s) (boot s) (cycles0 s) (lat s) (lati s) (fired s) (seqc s) (t_wifi s) (t_timer1 s) (t_iter s) (t_wd s) (t_recon s) (t_stop s) (t_value s) (t_gpio2 s) (wstatus s) (wlast s) (link s) (liveres s) (deadres s) v (started s) (registered s) (srpc s) (espbuf s) (recvbuf s) (lastresp s) (lastsent s) (nextwd s) (actto s) (resolving s) (gstate s) (conn s) (wbuf s) (stalled s) (outs s) (halted s) (stuck s) (regpay s) (clrstop s) (clrconn s) (evi s).
+Definition set_started (v : bool) (s : st) : st := mkst (now s) (boot s) (cycles0 s) (lat s) (lati s) (fired s) (seqc s) (t_wifi s) (t_timer1 s) (t_iter s) (t_wd s) (t_recon s) (t_stop s) (t_value s) (t_gpio2 s) (wstatus s) (wlast s) (link s) (liveres s) (deadres s) (script s) v (registered s) (srpc s) (espbuf s) (recvbuf s) (lastresp s) (lastsent s) (nextwd s) (actto s) (resolving s) (gstate s) (conn s) (wbuf s) (stalled s) (outs s) (halted s) (stuck s) (regpay s) (clrstop s) (clrconn s) (evi s).
+Definition set_registered (v : Z) (s : st) : st := mkst (now s) (boot s) (cycles0 s) (lat s) (lati s) (fired s) (seqc s) (t_wifi s) (t_timer1 s) (t_iter s) (t_wd s) (t_recon s) (t_stop s) (t_value s) (t_gpio2 s) (wstatus s) (wlast s) (link s) (liveres s) (deadres s) (script s) (started s) v (srpc s) (espbuf s) (recvbuf s) (lastresp s) (lastsent s) (nextwd s) (actto s) (resolving s) (gstate s) (conn s) (wbuf s) (stalled s) (outs s) (halted s) (stuck s) (regpay s) (clrstop s) (clrconn s) (evi s).
+Definition set_srpc (v : option rpc) (s : st) : st := mkst (now s) (boot s) (cycles0 s) (lat s) (lati s) (fired s) (seqc s) (t_wifi s) (t_timer1 s) (t_iter s) (t_wd s) (t_recon s) (t_stop s) (t_value s) (t_gpio2 s) (wstatus s) (wlast s) (link s) (liveres s) (deadres s) (script s) (started s) (registered s) v (espbuf s) (recvbuf s) (lastresp s) (lastsent s) (nextwd s) (actto s) (resolving s) (gstate s) (conn s) (wbuf s) (stalled s) (outs s) (halted s) (stuck s) (regpay s) (clrstop s) (clrconn s) (evi s).
+Definition set_espbuf (v : list Z) (s : st) : st := mkst (now s) (boot s) (cycles0 s) (lat s) (lati s) (fired s) (seqc s) (t_wifi s) (t_timer1 s) (t_iter s) (t_wd s) (t_recon s) (t_stop s) (t_value s) (t_gpio2 s) (wstatus s) (wlast s) (link s) (liveres s) (deadres s) (script s) (started s) (registered s) (srpc s) v (recvbuf s) (lastresp s) (lastsent s) (nextwd s) (actto s) (resolving s) (gstate s) (conn s) (wbuf s) (stalled s) (outs s) (halted s) (stuck s) (regpay s) (clrstop s) (clrconn s) (evi s).
+Definition set_recvbuf (v : list Z) (s : st) : st := mkst (now s) (boot s) (cycles0 s) (lat s) (lati s) (fired s) (seqc s) (t_wifi s) (t_timer1 s) (t_iter s) (t_wd s) (t_recon s) (t_stop s) (t_value s) (t_gpio2 s) (wstatus s) (wlast s) (link s) (liveres s) (deadres s) (script s) (started s) (registered s) (srpc s) (espbuf s) v (lastresp s) (lastsent s) (nextwd s) (actto s) (resolving s) (gstate s) (conn s) (wbuf s) (stalled s) (outs s) (halted s) (stuck s) (regpay s) (clrstop s) (clrconn s) (evi s).
+Definition set_lastresp (v : Z) (s : st) : st := mkst (now s) (boot s) (cycles0 s) (lat s) (lati s) (fired s) (seqc s) (t_wifi s) (t_timer1 s) (t_iter s) (t_wd s) (t_recon s) (t_stop s) (t_value s) (t_gpio2 s) (wstatus s) (wlast s) (link s) (liveres s) (deadres s) (script s) (started s) (registered s) (srpc s) (espbuf s) (recvbuf s) v (lastsent s) (nextwd s) (actto s) (resolving s) (gstate s) (conn s) (wbuf s) (stalled s) (outs s) (halted s) (stuck s) (regpay s) (clrstop s) (clrconn s) (evi s).
+Definition set_lastsent (v : Z) (s : st) : st := mkst (now s) (boot s) (cycles0 s) (lat s) (lati s) (fired s) (seqc s) (t_wifi s) (t_timer1 s) (t_iter s) (t_wd s) (t_recon s) (t_stop s) (t_value s) (t_gpio2 s) (wstatus s) (wlast s) (link s) (liveres s) (deadres s) (script s) (started s) (registered s) (srpc s) (espbuf s) (recvbuf s) (lastresp s) v (nextwd s) (actto s) (resolving s) (gstate s) (conn s) (wbuf s) (stalled s) (outs s) (halted s) (stuck s) (regpay s) (clrstop s) (clrconn s) (evi s).
+Definition set_nextwd (v : Z) (s : st) : st := mkst (now s) (boot s) (cycles0 s) (lat s) (lati s) (fired s) (seqc s) (t_wifi s) (t_timer1 s) (t_iter s) (t_wd s) (t_recon s) (t_stop s) (t_value s) (t_gpio2 s) (wstatus s) (wlast s) (link s) (liveres s) (deadres s) (script s) (started s) (registered s) (srpc s) (espbuf s) (recvbuf s) (lastresp s) (lastsent s) v (actto s) (resolving s) (gstate s) (conn s) (wbuf s) (stalled s) (outs s) (halted s) (stuck s) (regpay s) (clrstop s) (clrconn s) (evi s).
+Definition set_actto (v : Z) (s : st) : st := mkst (now s) (boot s) (cycles0 s) (lat s) (lati s) (fired s) (seqc s) (t_wifi s) (t_timer1 s) (t_iter s) (t_wd s) (t_recon s) (t_stop s) (t_value s) (t_gpio2 s) (wstatus s) (wlast s) (link s) (liveres s) (deadres s) (script s) (started s) (registered s) (srpc s) (espbuf s) (recvbuf s) (lastresp s) (lastsent s) (nextwd s) v (resolving s) (gstate s) (conn s) (wbuf s) (stalled s) (outs s) (halted s) (stuck s) (regpay s) (clrstop s) (clrconn s) (evi s).
+Definition set_resolving (v : bool) (s : st) : st := mkst (now s) (boot s) (cycles0 s) (lat s) (lati s) (fired s) (seqc s) (t_wifi s) (t_timer1 s) (t_iter s) (t_wd s) (t_recon s) (t_stop s) (t_value s) (t_gpio2 s) (wstatus s) (wlast s) (link s) (liveres s) (deadres s) (script s) (started s) (registered s) (srpc s) (espbuf s) (recvbuf s) (lastresp s) (lastsent s) (nextwd s) (actto s) v (gstate s) (conn s) (wbuf s) (stalled s) (outs s) (halted s) (stuck s) (regpay s) (clrstop s) (clrconn s) (evi s).
+Definition set_gstate (v : Z) (s : st) : st := mkst (now s) (boot s) (cycles0 s) (lat s) (lati s) (fired s) (seqc s) (t_wifi s) (t_timer1 s) (t_iter s) (t_wd s) (t_recon s) (t_stop s) (t_value s) (t_gpio2 s) (wstatus s) (wlast s) (link s) (liveres s) (deadres s) (script s) (started s) (registered s) (srpc s) (espbuf s) (recvbuf s) (lastresp s) (lastsent s) (nextwd s) (actto s) (resolving s) v (conn s) (wbuf s) (stalled s) (outs s) (halted s) (stuck s) (regpay s) (clrstop s) (clrconn s) (evi s).
+Definition set_conn (v : Z) (s : st) : st := mkst (now s) (boot s) (cycles0 s) (lat s) (lati s) (fired s) (seqc s) (t_wifi s) (t_timer1 s) (t_iter s) (t_wd s) (t_recon s) (t_stop s) (t_value s) (t_gpio2 s) (wstatus s) (wlast s) (link s) (liveres s) (deadres s) (script s) (started s) (registered s) (srpc s) (espbuf s) (recvbuf s) (lastresp s) (lastsent s) (nextwd s) (actto s) (resolving s) (gstate s) v (wbuf s) (stalled s) (outs s) (halted s) (stuck s) (regpay s) (clrstop s) (clrconn s) (evi s).
+Definition set_wbuf (v : list Z) (s : st) : st := mkst (now s) (boot s) (cycles0 s) (lat s) (lati s) (fired s) (seqc s) (t_wifi s) (t_timer1 s) (t_iter s) (t_wd s) (t_recon s) (t_stop s) (t_value s) (t_gpio2 s) (wstatus s) (wlast s) (link s) (liveres s) (deadres s) (script s) (started s) (registered s) (srpc s) (espbuf s) (recvbuf s) (lastresp s) (lastsent s) (nextwd s) (actto s) (resolving s) (gstate s) (conn s) v (stalled s) (outs s) (halted s) (stuck s) (regpay s) (clrstop s) (clrconn s) (evi s).
+Definition set_stalled (v : bool) (s : st) : st := mkst (now s) (boot s) (cycles0 s) (lat s) (lati s) (fired s) (seqc s) (t_wifi s) (t_timer1 s) (t_iter s) (t_wd s) (t_recon s) (t_stop s) (t_value s) (t_gpio2 s) (wstatus s) (wlast s) (link s) (liveres s) (deadres s) (script s) (started s) (registered s) (srpc s) (espbuf s) (recvbuf s) (lastresp s) (lastsent s) (nextwd s) (actto s) (resolving s) (gstate s) (conn s) (wbuf s) v (outs s) (halted s) (stuck s) (regpay s) (clrstop s) (clrconn s) (evi s).
+Definition set_outs (v : list wire) (s : st) : st := mkst (now s) (boot s) (cycles0 s) (lat s) (lati s) (fired s) (seqc s) (t_wifi s) (t_timer1 s) (t_iter s) (t_wd s) (t_recon s) (t_stop s) (t_value s) (t_gpio2 s) (wstatus s) (wlast s) (link s) (liveres s) (deadres s) (script s) (started s) (registered s) (srpc s) (espbuf s) (recvbuf s) (lastresp s) (lastsent s) (nextwd s) (actto s) (resolving s) (gstate s) (conn s) (wbuf s) (stalled s) v (halted s) (stuck s) (regpay s) (clrstop s) (clrconn s) (evi s).
+Definition set_halted (v : bool) (s : st) : st := mkst (now s) (boot s) (cycles0 s) (lat s) (lati s) (fired s) (seqc s) (t_wifi s) (t_timer1 s) (t_iter s) (t_wd s) (t_recon s) (t_stop s) (t_value s) (t_gpio2 s) (wstatus s) (wlast s) (link s) (liveres s) (deadres s) (script s) (started s) (registered s) (srpc s) (espbuf s) (recvbuf s) (lastresp s) (lastsent s) (nextwd s) (actto s) (resolving s) (gstate s) (conn s) (wbuf s) (stalled s) (outs s) v (stuck s) (regpay s) (clrstop s) (clrconn s) (evi s).
+Definition set_stuck (v : bool) (s : st) : st := mkst (now s) (boot s) (cycles0 s) (lat s) (lati s) (fired s) (seqc s) (t_wifi s) (t_timer1 s) (t_iter s) (t_wd s) (t_recon s) (t_stop s) (t_value s) (t_gpio2 s) (wstatus s) (wlast s) (link s) (liveres s) (deadres s) (script s) (started s) (registered s) (srpc s) (espbuf s) (recvbuf s) (lastresp s) (lastsent s) (nextwd s) (actto s) (resolving s) (gstate s) (conn s) (wbuf s) (stalled s) (outs s) (halted s) v (regpay s) (clrstop s) (clrconn s) (evi s).
+Definition set_regpay (v : list Z) (s : st) : st := mkst (now s) (boot s) (cycles0 s) (lat s) (lati s) (fired s) (seqc s) (t_wifi s) (t_timer1 s) (t_iter s) (t_wd s) (t_recon s) (t_stop s) (t_value s) (t_gpio2 s) (wstatus s) (wlast s) (link s) (liveres s) (deadres s) (script s) (started s) (registered s) (srpc s) (espbuf s) (recvbuf s) (lastresp s) (lastsent s) (nextwd s) (actto s) (resolving s) (gstate s) (conn s) (wbuf s) (stalled s) (outs s) (halted s) (stuck s) v (clrstop s) (clrconn s) (evi s).
+Definition set_clrstop (v : bool) (s : st) : st := mkst (now s) (boot s) (cycles0 s) (lat s) (lati s) (fired s) (seqc s) (t_wifi s) (t_timer1 s) (t_iter s) (t_wd s) (t_recon s) (t_stop s) (t_value s) (t_gpio2 s) (wstatus s) (wlast s) (link s) (liveres s) (deadres s) (script s) (started s) (registered s) (srpc s) (espbuf s) (recvbuf s) (lastresp s) (lastsent s) (nextwd s) (actto s) (resolving s) (gstate s) (conn s) (wbuf s) (stalled s) (outs s) (halted s) (stuck s) (regpay s) v (clrconn s) (evi s).
+Definition set_clrconn (v : bool) (s : st) : st := mkst (now s) (boot s) (cycles0 s) (lat s) (lati s) (fired s) (seqc s) (t_wifi s) (t_timer1 s) (t_iter s) (t_wd s) (t_recon s) (t_stop s) (t_value s) (t_gpio2 s) (wstatus s) (wlast s) (link s) (liveres s) (deadres s) (script s) (started s) (registered s) (srpc s) (espbuf s) (recvbuf s) (lastresp s) (lastsent s) (nextwd s) (actto s) (resolving s) (gstate s) (conn s) (wbuf s) (stalled s) (outs s) (halted s) (stuck s) (regpay s) (clrstop s) v (evi s).
+Definition set_evi (v : Z) (s : st) : st := mkst (now s) (boot s) (cycles0 s) (lat s) (lati s) (fired s) (seqc s) (t_wifi s) (t_timer1 s) (t_iter s) (t_wd s) (t_recon s) (t_stop s) (t_value s) (t_gpio2 s) (wstatus s) (wlast s) (link s) (liveres s) (deadres s) (script s) (started s) (registered s) (srpc s) (espbuf s) (recvbuf s) (lastresp s) (lastsent s) (nextwd s) (actto s) (resolving s) (gstate s) (conn s) (wbuf s) (stalled s) (outs s) (halted s) (stuck s) (regpay s) (clrstop s) (clrconn s) v.
 
 Definition get_tm (i : tid) (s : st) : timer :=
   match i with T_wifi => t_wifi s | T_timer1 => t_timer1 s | T_iter => t_iter s | T_wd => t_wd s
@@ -458,17 +461,18 @@ Definition dev_step (s : st) (e : ev) : st :=
   | ConnCb =>
       let s1 := set_stalled false (set_wbuf [] (set_conn (conn s + 1) (set_link L_LIVE s))) in
       let s2 := connect_cb s1 in
-      emit O_FRESH [now s2; conn s2; len (espbuf s2); len (recvbuf s2); registered s2] s2
+      emit O_FRESH [now s2; conn s2; len (espbuf s2); len (recvbuf s2); registered s2; evi s2] s2
   | DiscCb =>
       let s1 := if link s =? L_LIVE then wire_close s else s in
-      disconnect_cb (set_link L_IDLE s1)
-  | Recv b => recv_cb b s
+      disconnect_cb (set_link L_IDLE (emit O_DISCD [now s1; conn s1; evi s1] s1))
+  | Recv b => recv_cb b (emit O_RX [now s; conn s; evi s] s)
   | SentMode r => set_liveres r s
   | SentRes l => set_script l s
   | Local api => local_call api s
   | Bad => s
   end.
-Definition step (s : st) (e : ev) : st :=
+Definition step (s0 : st) (e : ev) : st :=
+  let s := set_evi (evi s0 + 1) s0 in
   if halted s || stuck s then s else if env_allows s e then dev_step s e else s.
 
 (* ---------- boot: user_init order gpio_init, wifi_init, devconn_init, devconn_start ---------- *)
@@ -477,7 +481,7 @@ Definition init0 (boot_ cyc dead : Z) (pay lat_ : list Z) (cs cc : bool) : st :=
        0 (STATION_GOT_IP_ + 1)
        L_IDLE 0 dead []
        false 0 None [] [] 0 0 0 0 false 0
-       0 [] false [] false false pay cs cc.
+       0 [] false [] false false pay cs cc 0.
 Definition boot_device (boot_ cyc dead : Z) (pay lat_ : list Z) (cs cc : bool) : st :=
   let s0 := init0 boot_ cyc dead pay lat_ cs cc in
   let s1 := set_wstatus STATION_CONNECTING_ (emit O_WIFISTART [now s0] s0) in         (* supla_esp_wifi_init *)
